@@ -104,6 +104,7 @@ type Ctx struct {
 	unsupported []string
 	oblNames  map[string]int
 	tracks    map[string]*trackInfo
+	immGlobals map[*ssa.Global]*Val
 	entry     *Heap
 	curPC     string
 }
@@ -168,8 +169,9 @@ func (c *Ctx) prelude() {
 	c.decl("sidx", fmt.Sprintf("(declare-fun sidx (Slice %s) Ref)", is))
 	c.decl("sidx_def", fmt.Sprintf("(assert (forall ((s Slice) (i %s)) (! (= (sidx s i) (elem (sl_arr s) (%s (sl_off s) i))) :pattern ((sidx s i)))))", is, map[bool]string{true: "bvadd", false: "+"}[c.bv]))
 	c.decl("root", "(declare-fun root (Ref) Ref)")
-	c.decl("root_elem", fmt.Sprintf("(assert (forall ((r Ref) (i %s)) (! (= (root (elem r i)) (root r)) :pattern ((elem r i)))))", is))
+	c.decl("root_elem", fmt.Sprintf("(assert (forall ((r Ref) (i %s)) (! (=> (not (= r nil)) (= (root (elem r i)) (root r))) :pattern ((elem r i)))))", is))
 	c.decl("root_nil", "(assert (= (root nil) nil))")
+	c.decl("root_nonnil", "(assert (forall ((r Ref)) (! (=> (not (= r nil)) (not (= (root r) nil))) :pattern ((root r)))))")
 	c.decl("blen", fmt.Sprintf("(declare-fun blen (Bytes) %s)", is))
 	c.decl("bempty", "(declare-const bempty Bytes)")
 	if c.bv {
@@ -209,13 +211,20 @@ func (c *Ctx) factUnder(pc, f string) {
 	}
 }
 
+func (c *Ctx) fnName() string {
+	if c.fn == nil {
+		return "lemma:" + c.con.ID
+	}
+	return shortID(c.fn.String())
+}
+
 func (c *Ctx) oblige(kind, name, pc, goal, descr, pos string) *Obligation {
-	full := shortID(c.fn.String()) + "#" + name
+	full := c.fnName() + "#" + name
 	c.oblNames[full]++
 	if n := c.oblNames[full]; n > 1 {
 		full = fmt.Sprintf("%s~%d", full, n)
 	}
-	o := &Obligation{Name: full, Kind: kind, Func: shortID(c.fn.String()), PC: pc, Goal: goal, NFacts: len(c.facts), NDecls: len(c.decls), Descr: descr, Pos: pos}
+	o := &Obligation{Name: full, Kind: kind, Func: c.fnName(), PC: pc, Goal: goal, NFacts: len(c.facts), NDecls: len(c.decls), Descr: descr, Pos: pos}
 	c.obls = append(c.obls, o)
 	return o
 }
@@ -439,7 +448,7 @@ func (c *Ctx) subRef(t types.Type, i int, base string) string {
 	inv := q("fldinv:" + structName(t) + "." + fieldName(st, i))
 	c.decl("fn:"+fn, fmt.Sprintf("(declare-fun %s (Ref) Ref)", fn))
 	c.decl("fn:"+inv, fmt.Sprintf("(declare-fun %s (Ref) Ref)", inv))
-	c.decl("ax:"+fn, fmt.Sprintf("(assert (forall ((r Ref)) (! (and (= (%s (%s r)) r) (not (= (%s r) nil)) (= (root (%s r)) (root r))) :pattern ((%s r)))))", inv, fn, fn, fn, fn))
+	c.decl("ax:"+fn, fmt.Sprintf("(assert (forall ((r Ref)) (! (and (= (%s (%s r)) r) (=> (not (= r nil)) (and (not (= (%s r) nil)) (= (root (%s r)) (root r))))) :pattern ((%s r)))))", inv, fn, fn, fn, fn))
 	return fmt.Sprintf("(%s %s)", fn, base)
 }
 
